@@ -17,7 +17,10 @@ cycles, self references, mixed alternatives); `WF` only says that every
 referenced rule exists.  The "documented fragment" (`Body.documented`) is
 sequences and ordered choices of matches and rule references; bodies with other
 operators (`?`, `*`, `+`, `#`, predicates) are covered by the kinds, by the
-list-level `isinstance` theorem and by the object theorems, not by `C03_inh`.
+list-level `isinstance` theorem, by the object theorems and by the two-sided bounds
+`C03_inh_lower` / `C03_inh_upper` / `C03_isinstance_bounds`, not by `C03_inh`.
+`TextxVerif/RuleTypesTree.lean` relates the children of a node to the alternatives of the
+rule's body (`Derives`, `WfTree`) and gives `proc` a relational specification (`Yields`).
 -/
 namespace RuleTypes
 
@@ -198,6 +201,18 @@ theorem C03_result_alternative (k : Kinds) (R : Nat) (b : Body) (kids : List PT)
       (firstNMof k a = none → ∃ s, proc k (.nt R kids) = .prim s) :=
   proc_alternative k R b kids hk hd
 
+/-- **The rule-kind dispatch, clause by clause.**  `Yields` (`TextxVerif/RuleTypesTree.lean`) is the
+specification written from the property text — a terminal and a match rule yield a plain value, a
+common rule an object of its own class, an abstract rule what its single child yields / what the
+*first* child that is the node of a non-match rule yields (with "first" spelled out as a split
+`pre ++ x :: post` whose prefix has no such node) / the first match-rule node (KF1) / the
+concatenated matched text.  `proc`, the function that is compared with `process_node`, computes
+exactly this relation: it is total (every tree yields `proc k t`) and deterministic (nothing else).
+`C03_match_plain`, `C03_result_single_child`, `C03_result_first_nonmatch`,
+`C03_result_concat_terminals` are the clauses of this specification read as equations. -/
+theorem C03_result_spec (k : Kinds) (t : PT) (v : Val) : Yields k t v ↔ proc k t = v :=
+  ⟨yields_proc, fun h => h ▸ proc_yields k t⟩
+
 /-- **The result is an instance of the rule.**  For every grammar, every assignment of kinds and
 every parse tree whose abstract rules' nodes derive from their bodies: if the node of rule `R`
 yields an object of rule `o`, then `R` is common and `o = R`, or `R` is abstract and `o` is
@@ -371,5 +386,15 @@ but `Model: (B? 'k') | C;` lists `C` by the theorem (and `B` by the walk) -/
 example : Edge [⟨false, .choice [.other [.ref 1, .lit], .ref 2]⟩, ⟨true, .lit⟩, ⟨true, .lit⟩] wKinds 0 2 ∧
     inhBy [⟨false, .choice [.other [.ref 1, .lit], .ref 2]⟩, ⟨true, .lit⟩, ⟨true, .lit⟩] wKinds 0 = [1, 2] :=
   ⟨⟨_, rfl, rfl, .choice (List.mem_cons_of_mem _ (List.mem_cons_self ..)) (.refNM (by decide))⟩, by decide⟩
+
+/-- the specification `Yields` is usable on its own: `Prefix Rule1` with `Prefix: '#' '#'` yields the
+`Rule1` object by the first-non-match clause (prefix: the match rule's node) -/
+example : Yields w4Kinds (.nt 0 [.nt 1 [.term "#" "#", .term "#" "#"], .nt 2 [.asgn "a" [.term "5" "5"]]])
+    (.obj 2 [("a", [.prim "5"])]) := by
+  have h : Yields w4Kinds (.nt 2 [.asgn "a" [.term "5" "5"]]) (.obj 2 [("a", [.prim "5"])]) := by
+    have := Yields.common (k := w4Kinds) (r := 2) (kids := [.asgn "a" [.term "5" "5"]]) rfl
+    simpa [procAttrs, procL, proc] using this
+  exact Yields.firstNM (pre := [.nt 1 [.term "#" "#", .term "#" "#"]]) (post := []) rfl (by decide)
+    (by simp [PT.isNM, w4Kinds]) (by simp [PT.isNM, w4Kinds]) h
 
 end RuleTypes
